@@ -10,7 +10,8 @@
  *   write err   -> returns -1, nothing written
  *   write short -> really writes min(count, n) bytes and returns that
  *   close err   -> really closes, returns -1
- * ftruncate is passed through (logged, not numbered).  Every call is logged to NVSHIM_LOG.
+ * ftruncate is passed through (logged, not numbered).  Every call is logged to NVSHIM_LOG
+ * (last word of a line = base name of the file).
  */
 #define _GNU_SOURCE
 #include <dlfcn.h>
@@ -31,6 +32,7 @@ static int (*real_close)(int);
 static int (*real_ftruncate)(int, off_t);
 static int inited, active, ncall, logfd = -1;
 static char tracked[1024];
+static char names[1024][8];	/* base name of the file behind a tracked descriptor (for the log) */
 static char targets[512];
 struct inj { int idx, kind, arg; };	/* kind 1 = err, 2 = short */
 static struct inj sched[64];
@@ -118,14 +120,18 @@ static int shim_open(const char *path, int flags, mode_t mode)
 		int idx = ncall++;
 		struct inj *j = lookup(idx);
 		if (j && j->kind == 1) {
-			shim_log("%d open err %d\n", idx, j->arg);
+			const char *b = strrchr(path, '/');
+			shim_log("%d open err %d %s\n", idx, j->arg, b ? b + 1 : path);
 			errno = j->arg;
 			return -1;
 		}
 		fd = real_open(path, flags, mode);
-		if (fd >= 0 && fd < (int) sizeof(tracked))
+		if (fd >= 0 && fd < (int) sizeof(tracked)) {
+			const char *b = strrchr(path, '/');
 			tracked[fd] = 1;
-		shim_log("%d open ok %d\n", idx, fd);
+			snprintf(names[fd], sizeof(names[fd]), "%s", b ? b + 1 : path);
+		}
+		shim_log("%d open ok %d %s\n", idx, fd, fd >= 0 && fd < (int) sizeof(tracked) ? names[fd] : "?");
 		return fd;
 	}
 	return real_open(path, flags, mode);
@@ -163,14 +169,14 @@ ssize_t write(int fd, const void *buf, size_t n)
 		struct inj *j = lookup(idx);
 		ssize_t r;
 		if (j && j->kind == 1) {
-			shim_log("%d write %ld err %d\n", idx, (long) n, j->arg);
+			shim_log("%d write %ld err %d %s\n", idx, (long) n, j->arg, names[fd]);
 			errno = j->arg;
 			return -1;
 		}
 		if (j && j->kind == 2 && (size_t) j->arg < n)
 			n = j->arg;
 		r = real_write(fd, buf, n);
-		shim_log("%d write %ld ret %ld\n", idx, (long) n, (long) r);
+		shim_log("%d write %ld ret %ld %s\n", idx, (long) n, (long) r, names[fd]);
 		return r;
 	}
 	return real_write(fd, buf, n);
@@ -186,11 +192,11 @@ int close(int fd)
 		tracked[fd] = 0;
 		r = real_close(fd);
 		if (j && j->kind == 1) {
-			shim_log("%d close err %d\n", idx, j->arg);
+			shim_log("%d close err %d %s\n", idx, j->arg, names[fd]);
 			errno = j->arg;
 			return -1;
 		}
-		shim_log("%d close ok %d\n", idx, r);
+		shim_log("%d close ok %d %s\n", idx, r, names[fd]);
 		return r;
 	}
 	return real_close(fd);
